@@ -95,6 +95,7 @@ class SymArray(_np.ndarray):
     def __array_finalize__(self, obj):
         # precision tag: which config.precision was in force when this array object came into being
         self._prec_tag = current_precision_name()
+        self._int_dtype = getattr(obj, '_int_dtype', None) if obj is not None and getattr(obj, 'shape', None) is not None else None
 
     @property
     def real(self):
@@ -119,6 +120,11 @@ class SymArray(_np.ndarray):
 
     def astype(self, dtype, *a, **k):
         return astype(self, dtype)
+
+    def tobytes(self, order='C'):
+        from . import symio
+        bits = {'int16': 16, 'uint16': 16, 'int32': 32, 'uint32': 32, 'int64': 64}.get(getattr(self, '_int_dtype', None), 32)
+        return symio.tobytes(self, bits)
 
     @property
     def nbytes(self):
@@ -970,6 +976,9 @@ class _DType:
     def __repr__(self):
         return 'symnp.' + self.name
 
+    def newbyteorder(self, *a):
+        return self      # byte order is a property of the transport, which is lossless here
+
     def __eq__(self, o):
         return isinstance(o, _DType) and o.name == self.name
 
@@ -995,7 +1004,7 @@ def _cast_int(v, dt):
     """C semantics: truncate toward zero, then wrap modulo 2^bits."""
     v = _ex(v)
     if isinstance(v, _NaN):
-        raise NotEncodable('NaN cast to integer')
+        return UNINIT       # casting NaN to an integer is undefined: an arbitrary value
     t = v.trunc() if isinstance(v, Sx) else math.trunc(v)
     m = 1 << dt.bits
     if isinstance(t, Sx):
@@ -1014,7 +1023,12 @@ def _cast_int(v, dt):
 def astype(a, dtype):
     if isinstance(dtype, _DType):
         if dtype.kind in 'iu':
-            return _map1(lambda v: _cast_int(v, dtype), a)
+            if getattr(a, '_int_dtype', None) == dtype.name:
+                return asarray(a).copy()          # already of this integer type
+            res = _map1(lambda v: _cast_int(v, dtype), a)
+            if isinstance(res, _np.ndarray):
+                res._int_dtype = dtype.name
+            return res
         if dtype.kind == 'f':
             return _map1(_el_real_strict, a)
         return asarray(a)
@@ -1180,6 +1194,11 @@ class _Random:
 
 
 random = _Random()
+
+
+def frombuffer(buf, dtype=None, count=-1, offset=0):
+    from . import symio
+    return symio.frombuffer(buf, dtype, count, offset)
 
 
 def hanning(M):
